@@ -28,7 +28,9 @@ def run(cmd, cwd, timeout=900):
 
 def main():
     prop, letter = sys.argv[1], sys.argv[2]
-    src = f"/tmp/seed/{prop}"
+    root = sys.argv[3] if len(sys.argv) > 3 else "/tmp/seed"
+    tag = sys.argv[4] if len(sys.argv) > 4 else letter   # id suffix under seeded/ (round 2 uses C / D)
+    src = f"{root}/{prop}"
     patch = os.path.join(src, f"patch{letter}.diff")
     demo = os.path.join(src, f"demo{letter}.py")
     if not (os.path.exists(patch) and os.path.exists(demo)):
@@ -36,7 +38,7 @@ def main():
         return 2
     d = tempfile.mkdtemp(prefix="verif-seedconfirm-")
     dst = os.path.join(d, "repo")
-    out = {"id": f"{prop}-{letter}", "property": prop}
+    out = {"id": f"{prop}-{tag}", "property": prop}
     try:
         shutil.copytree("/repo", dst, ignore=shutil.ignore_patterns(".git", "__pycache__", ".pytest_cache"))
         text = open(demo, encoding="utf-8").read().replace(src, dst)
@@ -58,7 +60,7 @@ def main():
         ok = rc0 == 0 and rct == 0 and rc1 != 0 and rc1 != 124
         out["status"] = "confirmed" if ok else "REJECTED"
         if ok:
-            tgt = os.path.join(VERIF, "seeded", f"{prop}-{letter}")
+            tgt = os.path.join(VERIF, "seeded", f"{prop}-{tag}")
             os.makedirs(tgt, exist_ok=True)
             shutil.copy(patch, os.path.join(tgt, "patch.diff"))
             open(os.path.join(tgt, "demo.py"), "w", encoding="utf-8").write(
@@ -68,7 +70,7 @@ def main():
             if os.path.exists(np):
                 notes = open(np, encoding="utf-8").read()
             meta = {
-                "id": f"{prop}-{letter}",
+                "id": f"{prop}-{tag}",
                 "property": prop,
                 "written_by": "independent sub-agent given only the property text and a scratch worktree",
                 "needs_to_manifest": "see notes",
